@@ -4,7 +4,8 @@ CONSTANTS
   MaxStore = 4
   MaxDead = 1
   MaxRev = 0
+  Contract = TRUE
   MaxBad = 1
-  MaxExtra = 1
+  MaxExtra = 0
 INVARIANTS Sound LocalEmpty Sufficient OnlyVerified
 CHECK_DEADLOCK FALSE
